@@ -11,6 +11,12 @@ orchestrator/language_detector.py (everything that runs between `lint_file` and 
   subscript_counts   per function, the number of `x[i]` / `x["k"]` loads (no slices, no annotations) outside a try catching
                      IndexError / KeyError
 
+  state_sites        every place outside __init__ where an attribute of `self` or a module-level name is assigned, subscript-assigned,
+                     mutated through a container method or declared `global` in the linters / analyzers: (site id, covered) - covered = the
+                     site is a reset (a fresh value is assigned) or mutates an attribute that the class (or a base class) resets outside
+                     __init__.  Rule and analyzer objects live for the whole run: anything else is state that survives from one file to
+                     the next (a parse memo, a cache, the store of a cross-file rule) and must be one of the audited sites
+
 Proofs/ContainCensus.v proves that every conversion / unpacking site is guarded or is one of the individually audited sites, and
 that the subscript table equals the recorded one, so a newly unguarded `int(...)`, `.index(...)`, `a, *b = x.split()` or `parts[2]`
 breaks a proof obligation whether or not a generated input reaches it.
@@ -206,8 +212,119 @@ def subscript_counts():
     return defn("subscript_counts", "list (string * nat)", coq_list(items))
 
 
+# ---------------------------------------------------------------- analyzer state that survives from one file to the next
+MUTATORS = {"append", "extend", "add", "update", "clear", "insert", "pop", "remove", "setdefault", "discard", "popitem", "appendleft"}
+FRESH_CALLS = {"set", "dict", "list", "tuple", "frozenset", "defaultdict", "OrderedDict", "deque", "Counter"}
+
+
+def _state_files():
+    src = REPO / "src"
+    out = sorted(list((src / "linters").rglob("*.py")) + list((src / "analyzers").rglob("*.py")) + list((src / "linter_config").glob("*.py"))
+                 + [src / "core" / "linter_utils.py", src / "core" / "registry.py", src / "core" / "base.py"])
+    if len(out) < 50:
+        raise Unsupported(f"only {len(out)} source files found")
+    return out
+
+
+def _fresh(e) -> bool:
+    """a value that carries nothing over from the file being analysed: a constant, an empty display, set() / dict() / ..."""
+    if isinstance(e, ast.Constant):
+        return True
+    if isinstance(e, (ast.List, ast.Tuple, ast.Set)) and all(isinstance(x, ast.Constant) for x in e.elts):
+        return True
+    if isinstance(e, ast.Dict) and not e.keys:
+        return True
+    if isinstance(e, ast.Call) and isinstance(e.func, ast.Name) and e.func.id in FRESH_CALLS and not e.keywords \
+            and all(isinstance(a, ast.Constant) or (isinstance(a, ast.Name) and a.id in FRESH_CALLS) for a in e.args):
+        return True
+    return False
+
+
+def _state_scan():
+    """rows (site id, kind, owner class | '', attribute, fresh) for every place OUTSIDE __init__ where an attribute of `self` or a
+    module-level name is assigned, subscript-assigned, mutated through a container method, or declared `global`"""
+    rows, bases = [], {}
+    for p in _state_files():
+        rel = str(p.relative_to(REPO))
+        try:
+            mod = ast.parse(p.read_text(encoding="utf-8"))
+        except SyntaxError as e:
+            raise Unsupported(f"{rel}: {e}")
+        modnames = set()
+        for st in mod.body:
+            for t in (st.targets if isinstance(st, ast.Assign) else [st.target] if isinstance(st, ast.AnnAssign) else []):
+                if isinstance(t, ast.Name):
+                    modnames.add(t.id)
+
+        def scan(fn, owner):
+            for n in ast.walk(fn):
+                tgts, val = [], None
+                if isinstance(n, ast.Assign):
+                    tgts, val = n.targets, n.value
+                elif isinstance(n, ast.AnnAssign) and n.value is not None:
+                    tgts, val = [n.target], n.value
+                elif isinstance(n, ast.AugAssign):
+                    tgts, val = [n.target], None
+                for t in tgts:
+                    for tt in (t.elts if isinstance(t, (ast.Tuple, ast.List)) else [t]):
+                        base, kind = tt, "="
+                        while isinstance(base, ast.Subscript):
+                            base, kind = base.value, "[]="
+                        if isinstance(base, ast.Attribute) and isinstance(base.value, ast.Name) and base.value.id == "self":
+                            fresh = kind == "=" and val is not None and not isinstance(t, (ast.Tuple, ast.List)) and _fresh(val)
+                            rows.append((f"{rel}::{owner}{fn.name}::self.{base.attr}{kind}", kind, owner.rstrip("."), base.attr, fresh))
+                        elif isinstance(base, ast.Name) and base.id in modnames and kind == "[]=":
+                            rows.append((f"{rel}::{owner}{fn.name}::{base.id}{kind}", kind, "", base.id, False))
+                if isinstance(n, ast.Call) and isinstance(n.func, ast.Attribute) and n.func.attr in MUTATORS:
+                    b = n.func.value
+                    if isinstance(b, ast.Attribute) and isinstance(b.value, ast.Name) and b.value.id == "self":
+                        # x.clear() empties the container: a reset like `x = []`
+                        rows.append((f"{rel}::{owner}{fn.name}::self.{b.attr}.{n.func.attr}", "mut", owner.rstrip("."), b.attr,
+                                     n.func.attr == "clear" and not n.args))
+                    elif isinstance(b, ast.Name) and b.id in modnames:
+                        rows.append((f"{rel}::{owner}{fn.name}::{b.id}.{n.func.attr}", "mut", "", b.id, False))
+                if isinstance(n, ast.Global):
+                    for g in n.names:
+                        rows.append((f"{rel}::{owner}{fn.name}::global {g}", "global", "", g, False))
+
+        for st in mod.body:
+            if isinstance(st, ast.ClassDef):
+                bases.setdefault(st.name, set()).update(ast.unparse(b.value if isinstance(b, ast.Subscript) else b).split(".")[-1] for b in st.bases)
+                for m in st.body:
+                    if isinstance(m, (ast.FunctionDef, ast.AsyncFunctionDef)) and m.name != "__init__" and m.name != "__post_init__":
+                        scan(m, st.name + ".")
+            elif isinstance(st, (ast.FunctionDef, ast.AsyncFunctionDef)):
+                scan(st, "")
+    return rows, bases
+
+
+def state_sites():
+    """(site, covered): covered = the site IS a reset (assignment of a fresh value), or it mutates an attribute for which the class or
+    one of its base classes has such a reset outside __init__ (the accumulator of a visitor, emptied at the start of every analysis)"""
+    rows, bases = _state_scan()
+    # a reset in a life-cycle method (clear / reset / finalize / close) is called from outside, not at the start of an analysis
+    life = ("clear", "reset", "finalize", "close")
+    resets = {(owner, attr) for sid, kind, owner, attr, fresh in rows if fresh and not sid.split("::")[1].split(".")[-1].lstrip("_").startswith(life)}
+
+    def ancestors(c, seen=()):
+        out = [c]
+        for b in bases.get(c, ()):
+            if b not in seen:
+                out += ancestors(b, seen + (c,))
+        return out
+
+    out = {}
+    for sid, kind, owner, attr, fresh in rows:
+        covered = fresh or (kind in ("mut", "[]=") and owner != "" and any((a, attr) in resets for a in ancestors(owner)))
+        out[sid] = out.get(sid, True) and covered
+    if len(out) < 40:
+        raise Unsupported(f"only {len(out)} state sites found (the census looks at the wrong places)")
+    return defn("state_sites", "list (string * bool)", coq_list([f"({coq_string(k)}, {'true' if v else 'false'})" for k, v in sorted(out.items())]))
+
+
 ITEMS = [
     ("conversion_sites", conversion_sites),
     ("unpack_sites", unpack_sites),
     ("subscript_counts", subscript_counts),
+    ("state_sites", state_sites),
 ]
